@@ -31,8 +31,7 @@ TRUSTED = [
     "synced_collections 1.0.1 and the copy/pickle protocol are modelled, not verified",
     "gzip framing of the persistent cache file: only the decoded mapping is compared",
 ]
-ASSUMPTIONS = ["after job.move() the shallow copies of the moved handle are not used for state point changes",
-               "copy.copy is taken after the handle's state point was accessed (the early-copy defect is C04's finding 2)",
+ASSUMPTIONS = ["copy.copy is taken after the handle's state point was accessed (the early-copy defect is C04's finding 2)",
                "a handle is pickled only while no shallow copy of it exists (RecursionError otherwise)",
                "values that compare == in Python but differ in type (1 / 1.0 / True) are not mixed (C04's finding 3)",
                "open_job(id=...) is only asked for ids that exist in the workspace or never existed",
@@ -83,6 +82,9 @@ SCRIPTS = {
                                ["DeepCopy", 0], ["Edit", 1, [], ["del", "d"]], ["Edit", 0, [], ["del", "d"]]],
     "lazy-handle-gone": [["NewSession", "A"], ["OpenSp", 0, typed({"a": 0})], ["Init", 0, False], ["NewSession", "A"],
                          ["OpenId", 1, "9bfd29df07674bc4aa960cf661b5acd2"], ["Remove", 0], ["Init", 1, False]],
+    "moved-handle-copy": [["NewSession", "A"], ["NewSession", "B"], ["OpenSp", 0, typed({"a": 0})], ["Init", 0, False],
+                          ["Sp", 0], ["Copy", 0], ["Move", 0, 1], ["Init", 1, False],
+                          ["Edit", 1, [], ["set", "a", typed(2)]]],
     "lifecycle-clean": [["NewSession", "A"], ["NewSession", "B"], ["OpenSp", 0, typed({"a": 0, "c": [1, 2]})],
                         ["Init", 0, False], ["DocSet", 0, "p", typed([1, {"z": None}])],
                         ["WriteFile", 0, ["sub", "x.bin"], "00ff10"], ["Sp", 0], ["Copy", 0],
@@ -171,10 +173,6 @@ def random_ops(desc, W):
         if n == 0:
             return None
         cands = list(range(max(0, n - 4), n)) if rng.random() < 0.7 else list(range(n))
-        if pred is sp_safe:      # never change the state point through a copy of a moved handle (see ASSUMPTIONS)
-            cands = [i for i in cands if i not in orphaned] or [i for i in range(n) if i not in orphaned]
-            if not cands:
-                return None
         if pred is not None and rng.random() < 0.92:
             good = [i for i in cands if pred(i)] or [i for i in range(n) if pred(i)]
             if good:
